@@ -26,7 +26,7 @@ def sweep(mut):
             s = s.replace(mut["extra"][0], mut["extra"][1], 1)
         p.write_text(s)
         (tmp / "verif").mkdir()
-        kf = os.environ.get("PFSA_KNOWN")
+        kf = os.environ.get("PFSA_KNOWN", str(HERE.parent / "known_findings.json"))
         if kf:
             shutil.copy(kf, tmp / "verif" / "known_findings.json")
         env = dict(os.environ, PFSA_REPO=str(tmp), PFSA_VERIF=str(tmp / "verif"))
